@@ -439,13 +439,23 @@ def _pair_case(g, rng, t):
     sysl = [s_ for s_ in C.SYSTEMS if C.dim_of(s_) == dim]
     selfs = []
     partners = [dict(), dict()]
+    # half of the worlds: both threads go through the *same* dispatch entry (same stored systems, same backends) with
+    # different values and different scalar arguments - whatever one call keeps on an object, closure or table shared
+    # per function / per signature is then visible to the other
+    same = rng.random() < 0.5
+    sys0 = sysl[rng.randrange(len(sysl))]
     for q in range(2):
         mom = True if kind == "mprop" else (q == 0)
-        selfs.append(_mk_like(g, k, be, sysl[rng.randrange(len(sysl))], mom))
+        selfs.append(_mk_like(g, k, be, sys0 if same else sysl[rng.randrange(len(sysl))], mom))
     for d in (2, 3, 4):      # partners for binary methods, one per flavor
+        s2 = [s_ for s_ in C.SYSTEMS if C.dim_of(s_) == d]
+        sysp = s2[rng.randrange(len(s2))]
+        bep = be if rng.random() < 0.7 else "obj"
         for q in range(2):
-            s2 = [s_ for s_ in C.SYSTEMS if C.dim_of(s_) == d]
-            partners[q][d] = _mk_like(g, k, be if rng.random() < 0.7 else "obj", s2[rng.randrange(len(s2))], q == 0)
+            if same:
+                partners[q][d] = _mk_like(g, k, bep, sysp, q == 0)
+            else:
+                partners[q][d] = _mk_like(g, k, be if rng.random() < 0.7 else "obj", s2[rng.randrange(len(s2))], q == 0)
     progs = []
     for q in range(2):
         prog = []
@@ -460,6 +470,11 @@ def _pair_case(g, rng, t):
         progs.append(prog)
     sched = {"kind": "sites", "seed": rng.randrange(1 << 30), "p": rng.choice((1.0, 1.0, 0.5)), "which": ["with", "store", "flag", "func"],
              "domain": "line", "observe": 2}
+    if same:
+        # "the other thread's whole call falls inside my window", for every window in which per-call state may sit on a
+        # shared object
+        sched = {"kind": "parkop", "seed": rng.randrange(1 << 30), "p": rng.choice((1.0, 0.5, 0.25)), "which": ["pstore", "store", "func", "glob"],
+                 "domain": "line", "observe": 2}
     return _finish(g, k, progs, [], sched, niso=0)
 
 
